@@ -47,7 +47,7 @@ fn gen_fn_spec(t: &mut Tape, name: &str, tag: &str, deps_pool: &[Deps], mock_act
         }
     }
     let has_gen = params.iter().any(|p| p.vt == VT::Gen);
-    FnSpec { name: name.to_string(), tag: tag.to_string(), vis: String::new(), is_async, deps, bounds, bounds_in_where, params, has_gen, ret_unit: !mock_active && t.chance(1, 6) }
+    FnSpec { name: name.to_string(), tag: tag.to_string(), vis: String::new(), is_async, deps, bounds, bounds_in_where, params, has_gen, ret_unit: !mock_active && t.chance(1, 6), hold_rc: false }
 }
 
 fn call_pair(f: &FnSpec, path_prefix: &str, idx: usize, ufcs: Option<&str>) -> String {
@@ -81,12 +81,12 @@ fn call_pair(f: &FnSpec, path_prefix: &str, idx: usize, ufcs: Option<&str>) -> S
         s.push_str(&format!("        let d_{v} = {v}.clone();\n"));
     }
     s.push_str(&format!("        {}", f.vec_decls().replace('\n', "\n        ")));
-    s.push_str(&format!("let via = {};\n        let t_via = rt::take();\n", wrap(via)));
+    s.push_str(&format!("\n/*GEN*/ let via = {};\n        let t_via = rt::take();\n", wrap(via)));
     s.push_str(&format!("        if t_direct.len() != 1 {{ fails.push(format!(\"HARNESS: direct call of {} traced {{}} entries\", t_direct.len())); }}\n", f.name));
-    s.push_str(&format!("        rt::expect_eq(&mut fails, \"fn#{idx} {}: result of the trait call vs the direct call\", &via, &direct);\n", f.name));
-    s.push_str(&format!("        rt::expect_eq(&mut fails, \"fn#{idx} {}: call trace of the trait call vs the direct call\", &t_via, &t_direct);\n", f.name));
+    s.push_str(&format!("/*GEN*/ rt::expect_eq(&mut fails, \"fn#{idx} {}: result of the trait call vs the direct call\", &via, &direct);\n", f.name));
+    s.push_str(&format!("/*GEN*/ rt::expect_eq(&mut fails, \"fn#{idx} {}: call trace of the trait call vs the direct call\", &t_via, &t_direct);\n", f.name));
     for v in f.vec_names() {
-        s.push_str(&format!("        rt::expect_eq(&mut fails, \"fn#{idx} {}: &mut argument {v} after the call\", &{v}, &d_{v});\n", f.name));
+        s.push_str(&format!("/*GEN*/ rt::expect_eq(&mut fails, \"fn#{idx} {}: &mut argument {v} after the call\", &{v}, &d_{v});\n", f.name));
     }
     if f.deps == Deps::Concrete {
         // also through Impl<Conf>: the receiver must be the inner Conf
@@ -95,9 +95,9 @@ fn call_pair(f: &FnSpec, path_prefix: &str, idx: usize, ufcs: Option<&str>) -> S
         s.push_str(&format!("let direct2 = {d2};\n        let t_direct2 = rt::take();\n"));
         s.push_str(&format!("        {}", f.vec_decls().replace('\n', "\n        ")));
         let v2 = wrap(format!("<::entrait::Impl<Conf> as {}>::{}(&iconf{comma}{args})", if f.has_gen { "TheTrait<_>" } else { "TheTrait" }, f.name));
-        s.push_str(&format!("let via2 = {v2};\n        let t_via2 = rt::take();\n"));
-        s.push_str(&format!("        rt::expect_eq(&mut fails, \"fn#{idx} {}: result through Impl<Conf>\", &via2, &direct2);\n", f.name));
-        s.push_str(&format!("        rt::expect_eq(&mut fails, \"fn#{idx} {}: trace through Impl<Conf>\", &t_via2, &t_direct2);\n", f.name));
+        s.push_str(&format!("\n/*GEN*/ let via2 = {v2};\n        let t_via2 = rt::take();\n"));
+        s.push_str(&format!("/*GEN*/ rt::expect_eq(&mut fails, \"fn#{idx} {}: result through Impl<Conf>\", &via2, &direct2);\n", f.name));
+        s.push_str(&format!("/*GEN*/ rt::expect_eq(&mut fails, \"fn#{idx} {}: trace through Impl<Conf>\", &t_via2, &t_direct2);\n", f.name));
     }
     s.push_str("    }\n");
     s
@@ -190,6 +190,7 @@ pub fn gen_case(t: &mut Tape, feature_unimock: bool) -> Case {
             if mockall_active_any(mock_active, mockall) {
                 f.is_async = false;
             }
+            f.hold_rc = no_send && f.is_async;
             fns.push(f);
         }
         let same_sig = fns.windows(2).any(|w| w[0].signature().replace(&w[0].name, "") == w[1].signature().replace(&w[1].name, ""));
@@ -197,7 +198,7 @@ pub fn gen_case(t: &mut Tape, feature_unimock: bool) -> Case {
             classes.push("module_same_signature_fns");
             nontrivial = true;
         }
-        src.push_str(&format!("#[{macro_path}({attr})]\npub mod m {{\n    use super::*;\n"));
+        src.push_str(&format!("/*GEN*/ #[{macro_path}({attr})]\npub mod m {{\n    use super::*;\n"));
         for f in &fns {
             src.push_str(&format!("    {}\n", f.render("").replace('\n', "\n    ")));
             if t.chance(1, 4) {
@@ -224,7 +225,8 @@ pub fn gen_case(t: &mut Tape, feature_unimock: bool) -> Case {
         if mockall_active_any(mock_active, mockall) {
             f.is_async = false;
         }
-        src.push_str(&format!("#[{macro_path}({attr})]\n{}\n", f.render("")));
+        f.hold_rc = no_send && f.is_async;
+        src.push_str(&format!("/*GEN*/ #[{macro_path}({attr})]\n{}\n", f.render("")));
         body.push_str(&call_pair(&f, "", 0, None));
         nontrivial |= fn_nontrivial(&f, &mut classes);
         summary = format!("#[{macro_path}({attr})] {}", f.signature());
@@ -251,6 +253,9 @@ fn fn_nontrivial(f: &FnSpec, classes: &mut Vec<&'static str>) -> bool {
     if f.is_async {
         classes.push("async");
         nt = true;
+    }
+    if f.hold_rc {
+        classes.push("maybe_send_with_not_send_future");
     }
     if f.deps.by_value() {
         classes.push("by_value_deps");
@@ -297,7 +302,6 @@ pub fn run(ctx: &mut Ctx) {
         let out = batch.build_and_run();
         super::common::crosscheck_records(ctx, &out.records);
         total += cases.len();
-        total_dropped += out.compile_failed.len();
         for (id, diags) in &out.compile_failed {
             ctx.class("dropped_compile_error");
             if std::env::var("VERIF_DEBUG").is_ok() {
@@ -338,11 +342,27 @@ pub fn run(ctx: &mut Ctx) {
             return;
         }
         batch.cleanup();
+        // programs that do not compile are judged after the runnable ones, against their twin (no attribute, no trait calls):
+        // a trait method that cannot even be called does not "run the original function"
+        let failed: Vec<(String, String, String, String)> = out
+            .compile_failed
+            .iter()
+            .map(|(id, d)| {
+                let c = &cases[id].0;
+                let twin: String = c.src.lines().filter(|l| !l.starts_with("/*GEN*/")).collect::<Vec<_>>().join("\n");
+                (c.summary.clone(), c.src.clone(), twin, d.first().map(|x| format!("{} {}", x.code, x.message)).unwrap_or_default())
+            })
+            .collect();
+        let (violations, faults) = super::common::judge_compile_failures(ctx, "c01", feature_unimock, &failed, "the generated trait method cannot be called like the function");
+        if violations > 0 {
+            return;
+        }
+        total_dropped += faults;
     }
     ctx.extra.insert("programs_dropped_not_compiling".into(), json!(total_dropped));
     if total_dropped * 20 > total {
         ctx.write_evidence().ok();
-        crate::ev::inconclusive(&format!("{total_dropped} of {total} generated programs did not compile (>5%): see C03; first: {:?}", ctx.extra.get("first_dropped")));
+        crate::ev::inconclusive(&format!("{total_dropped} of {total} generated programs (and their twins) did not compile (>5%, generator fault); first: {:?}", ctx.extra.get("first_dropped")));
     }
 }
 
